@@ -66,6 +66,8 @@ pub struct RefTokenizer {
 pub struct Expected {
     pub start: usize,
     pub allowed: Vec<(usize, usize)>,
+    /// every candidate (end, token type) whose lookahead condition holds, whatever its extent
+    pub satisfied: Vec<(usize, usize)>,
 }
 
 impl RefTokenizer {
@@ -178,7 +180,8 @@ impl RefTokenizer {
                 .filter(|c| c.2 == max_extent && c.0 == first)
                 .map(|c| (c.1, self.modes[mode][c.0].tt))
                 .collect();
-            return Some(Expected { start: pos, allowed });
+            let satisfied = cands.iter().map(|c| (c.1, self.modes[mode][c.0].tt)).collect();
+            return Some(Expected { start: pos, allowed, satisfied });
         }
         None
     }
@@ -187,6 +190,17 @@ impl RefTokenizer {
 /// Re-tokenizes `input` with the real scanner and with the reference, in lock step (the mode
 /// follows the configured transitions on the reported token types).
 pub fn check_corpus(cfg: &ScannerCfg, scanner: &scnr::Scanner, input: &str) -> Result<(usize, usize), String> {
+    check_corpus_with(cfg, scanner, input, false)
+}
+
+/// As check_corpus, but judging only what C04 states: every reported token is one of the candidates
+/// whose lookahead condition holds (not necessarily the selected one), it starts at the first position
+/// that has such a candidate, and the scan continues at its end.
+pub fn check_corpus_gate(cfg: &ScannerCfg, scanner: &scnr::Scanner, input: &str) -> Result<(usize, usize), String> {
+    check_corpus_with(cfg, scanner, input, true)
+}
+
+fn check_corpus_with(cfg: &ScannerCfg, scanner: &scnr::Scanner, input: &str, gate_only: bool) -> Result<(usize, usize), String> {
     use scnr::ScannerModeSwitcher;
     let chars: Vec<char> = input.chars().collect();
     let mut off: Vec<usize> = input.char_indices().map(|(i, _)| i).collect();
@@ -209,7 +223,8 @@ pub fn check_corpus(cfg: &ScannerCfg, scanner: &scnr::Scanner, input: &str) -> R
             (Some(m), None) => return Err(format!("token #{} ({}, {}..{}) reported in mode {} where the reference finds nothing more", tokens, m.token_type(), m.start(), m.end(), mode)),
             (None, Some(e)) => return Err(format!("no token #{} although the reference finds one at offset {} in mode {} (types/ends {:?})", tokens, off[e.start], mode, e.allowed)),
             (Some(m), Some(e)) => {
-                let ok = m.start() == off[e.start] && e.allowed.iter().any(|(end, tt)| off[*end] == m.end() && *tt == m.token_type());
+                let acceptable = if gate_only { &e.satisfied } else { &e.allowed };
+                let ok = m.start() == off[e.start] && acceptable.iter().any(|(end, tt)| off[*end] == m.end() && *tt == m.token_type());
                 if !ok {
                     return Err(format!(
                         "token #{} is (type {}, {}..{}) {:?} in mode {}; the rule gives start {} and (end, type) in {:?}",
@@ -217,10 +232,17 @@ pub fn check_corpus(cfg: &ScannerCfg, scanner: &scnr::Scanner, input: &str) -> R
                         m.token_type(),
                         m.start(),
                         m.end(),
-                        input.get(m.start()..m.end()).unwrap_or("?"),
+                        {
+                            let text = input.get(m.start()..m.end()).unwrap_or("?");
+                            if text.chars().count() > 60 {
+                                format!("{}... ({} bytes)", text.chars().take(60).collect::<String>(), text.len())
+                            } else {
+                                text.to_string()
+                            }
+                        },
                         mode,
                         off[e.start],
-                        e.allowed.iter().map(|(end, tt)| (off[*end], *tt)).collect::<Vec<_>>()
+                        acceptable.iter().map(|(end, tt)| (off[*end], *tt)).collect::<Vec<_>>()
                     ));
                 }
                 tokens += 1;
